@@ -54,7 +54,8 @@ ASSUMPTIONS = [
 ]
 
 BOTH = ('unknown-fn', 'xlfn', 'xlfn-like-known', 'undefined-name', 'ref-literal',
-        'ref-literal-arg', 'unknown-fn-nested', 'name-unknown-fn')
+        'ref-literal-arg', 'unknown-fn-nested', 'name-unknown-fn',
+        'ref-literal-prefixed')
 FILES = ('missing-sheet', 'missing-sheet-range', 'missing-book', 'empty-file',
          'truncated-file', 'directory', 'garbage-file', 'name-missing-sheet',
          'link-index')
@@ -100,6 +101,16 @@ def fault_tree(kind, rng, desc, b):
         return ['raw', '[1]Sheet1!A1', None], REF_OR_NAME
     if kind == 'ref-literal':
         return ['bin', '+', ['err', '#REF!'], arg], {'#REF!'}
+    if kind == 'ref-literal-prefixed':
+        # what Excel leaves behind when the referenced cells were deleted
+        own = desc['books'][b]['sheets'][0]['name']
+        q = own if own.isidentifier() else "'%s'" % own.replace("'", "''")
+        text = rng.choice((
+            '%s!#REF!' % q, "'My Sheet'!#REF!", "'[other.xlsx]My Sheet'!#REF!",
+            "'[other.xlsx]Data'!#REF!", "'[%s]%s'!#REF!" % (
+                bk, own.replace("'", "''")), "'[1]My Sheet'!#REF!", '[1]Sheet1!#REF!'))
+        t = ['raw', text, text]
+        return (t if rng.random() < 0.5 else ['bin', '+', t, arg]), {'#REF!'}
     if kind == 'ref-literal-arg':
         return ['call', 'SUM', [['err', '#REF!'], arg]], {'#REF!'}
     if kind == 'missing-sheet':
